@@ -3,12 +3,23 @@ package main
 // C25 harness, gate half (cmd/broker/main.go): Produce and Fetch requests (several
 // topics / partitions, some topics denied by the ACL, metadata store reporting etcd
 // down or not) sent through the REAL handler.Handle while the real S3HealthMonitor
-// rates S3 healthy / degraded / unavailable. Oracle (statement, gate clause): while the
-// rating is not healthy every partition of the request gets a non-zero error code, no
-// record is appended (store next-offset and S3 listing unchanged) and no record bytes
-// are returned; partitions that pass the ACL/etcd checks get exactly the backpressure
-// code of the state. Every partition's environment + observation is emitted for the
-// Coq correspondence (HealthCorr.check_gcase).
+// rates S3 healthy / degraded / unavailable.
+//
+// The S3 client is a fake around the in-memory client whose UploadSegment /
+// DownloadSegment outcomes are SCRIPTED per call, so the rating can change DURING one
+// multi-partition request (an earlier partition's failed upload / download makes the
+// monitor leave "healthy" before a later partition of the same request is handled).
+// The fake samples the monitor's State() at the start of every S3 call.
+//
+// Oracle (statement, gate clause):
+//   - no S3 data operation (segment upload for produce, segment download for fetch)
+//     STARTS at a moment when State() is not healthy: that partition was not gated;
+//   - a partition whose gate-time rating (derived from the samples, per partition) is not
+//     healthy gets a non-zero error code, nothing is appended (store next-offset and S3
+//     listing unchanged) and no record bytes are returned; if it passed the ACL / etcd
+//     checks the code is exactly the backpressure code of the rating.
+// Every partition's environment + observation is emitted for the Coq correspondence
+// (HealthCorr.check_gcase; the model's gate is per partition).
 
 import (
 	"context"
@@ -17,6 +28,7 @@ import (
 	"fmt"
 	"sort"
 	"strings"
+	"sync"
 	"testing"
 	"time"
 
@@ -32,12 +44,16 @@ type c25gTopic struct {
 	Parts []int32 `json:"parts"`
 }
 type c25gCase struct {
-	Kind     string      `json:"kind"` // "gate"
-	State    int         `json:"state"`
-	EtcdDown bool        `json:"etcd_down"`
-	ACL      bool        `json:"acl"`
-	Produce  bool        `json:"produce"`
-	Topics   []c25gTopic `json:"topics"`
+	Kind      string      `json:"kind"` // "gate"
+	State     int         `json:"state"`
+	EtcdDown  bool        `json:"etcd_down"`
+	ACL       bool        `json:"acl"`
+	Produce   bool        `json:"produce"`
+	Topics    []c25gTopic `json:"topics"`
+	Scripted  bool        `json:"scripted,omitempty"`  // distinct partitions; fetch runs on a second handler with a cold cache
+	Up        []bool      `json:"up,omitempty"`        // UploadSegment call k of the request fails iff Up[k]
+	Dl        []bool      `json:"dl,omitempty"`        // DownloadSegment call k of the request fails iff Dl[k]
+	Sensitive bool        `json:"sensitive,omitempty"` // ErrorWarn 0.05: one failure always leaves "healthy"
 }
 
 type c25gStore struct {
@@ -47,13 +63,95 @@ type c25gStore struct {
 
 func (s c25gStore) Available() bool { return !s.down }
 
+// ---- scripted fake S3 ----
+type c25gCall struct {
+	op     string
+	part   string // "topic/partition"
+	state  int    // monitor rating when the call started (-1: not sampled)
+	failed bool
+}
+type c25gS3 struct {
+	*storage.MemoryS3Client
+	mu     sync.Mutex
+	h      *handler // sampled handler; nil while populating
+	up, dl []bool
+	nUp    int
+	nDl    int
+	log    []c25gCall
+}
+
+func c25gPartOfKey(key string) string {
+	f := strings.Split(key, "/")
+	if len(f) >= 3 {
+		return f[1] + "/" + f[2]
+	}
+	return key
+}
+
+func (s *c25gS3) begin(op, key string, script []bool, n *int) (int, bool) {
+	s.mu.Lock()
+	h := s.h
+	fail := false
+	if h != nil && script != nil {
+		if *n < len(script) {
+			fail = script[*n]
+		}
+		*n++
+	}
+	s.mu.Unlock()
+	if h == nil {
+		return -1, false
+	}
+	st := c25gRank(h.s3Health.State())
+	s.mu.Lock()
+	s.log = append(s.log, c25gCall{op: op, part: c25gPartOfKey(key), state: st, failed: fail})
+	idx := len(s.log) - 1
+	s.mu.Unlock()
+	return idx, fail
+}
+
+func (s *c25gS3) UploadSegment(ctx context.Context, key string, body []byte) error {
+	if _, fail := s.begin("upload_segment", key, s.upScript(), &s.nUp); fail {
+		return errors.New("scripted S3 upload failure")
+	}
+	return s.MemoryS3Client.UploadSegment(ctx, key, body)
+}
+func (s *c25gS3) UploadIndex(ctx context.Context, key string, body []byte) error {
+	s.begin("upload_index", key, nil, nil)
+	return s.MemoryS3Client.UploadIndex(ctx, key, body)
+}
+func (s *c25gS3) DownloadSegment(ctx context.Context, key string, rng *storage.ByteRange) ([]byte, error) {
+	if _, fail := s.begin("download_segment", key, s.dlScript(), &s.nDl); fail {
+		return nil, errors.New("scripted S3 download failure")
+	}
+	return s.MemoryS3Client.DownloadSegment(ctx, key, rng)
+}
+func (s *c25gS3) DownloadIndex(ctx context.Context, key string) ([]byte, error) {
+	s.begin("download_index", key, nil, nil)
+	return s.MemoryS3Client.DownloadIndex(ctx, key)
+}
+func (s *c25gS3) upScript() []bool {
+	if s.up == nil {
+		return []bool{}
+	}
+	return s.up
+}
+func (s *c25gS3) dlScript() []bool {
+	if s.dl == nil {
+		return []bool{}
+	}
+	return s.dl
+}
+
 type c25gPart struct {
-	topic            string
-	part             int32
-	allowed          bool
-	code             int16
-	touched          bool
-	gateSt, codeSt   int
+	topic          string
+	part           int32
+	allowed        bool
+	code           int16
+	touched        bool
+	gateSt, codeSt int
+	s3fail         bool
+	afterSt        int
 }
 
 func c25gRank(s broker.S3HealthState) int {
@@ -66,10 +164,11 @@ func c25gRank(s broker.S3HealthState) int {
 	return 0
 }
 
-var c25gTopics = map[string]int32{"t0": 2, "t1": 1, "secret": 1}
+var c25gTopics = map[string]int32{"t0": 4, "t1": 1, "secret": 1}
 
-func c25gRun(t *testing.T, c c25gCase) ([]c25gPart, string, string) {
+func c25gRun(t *testing.T, c c25gCase) ([]c25gPart, string, string, []string) {
 	fail, key := "", ""
+	var notes []string
 	setFail := func(k, f string) {
 		if fail == "" {
 			fail, key = f, k
@@ -81,6 +180,7 @@ func c25gRun(t *testing.T, c c25gCase) ([]c25gPart, string, string) {
 	} else {
 		t.Setenv("KAFSCALE_ACL_ENABLED", "false")
 	}
+	t.Setenv("KAFSCALE_READAHEAD_SEGMENTS", "0") // no background prefetch: S3 calls happen in request order
 	ctx := context.Background()
 	mem := metadata.NewInMemoryStore(defaultMetadata())
 	for name, n := range c25gTopics {
@@ -88,8 +188,9 @@ func c25gRun(t *testing.T, c c25gCase) ([]c25gPart, string, string) {
 			t.Fatalf("create topic: %v", err)
 		}
 	}
-	s3 := storage.NewMemoryS3Client()
-	h := newHandler(mem, s3, protocol.MetadataBroker{NodeID: 1, Host: "localhost", Port: 19092}, testLogger())
+	s3 := &c25gS3{MemoryS3Client: storage.NewMemoryS3Client()}
+	bi := protocol.MetadataBroker{NodeID: 1, Host: "localhost", Port: 19092}
+	h := newHandler(mem, s3, bi, testLogger())
 	client := "client"
 	// populate every partition with one record while healthy and unrestricted
 	saved := h.authorizer
@@ -108,8 +209,17 @@ func c25gRun(t *testing.T, c c25gCase) ([]c25gPart, string, string) {
 		}
 	}
 	h.authorizer = saved
+	if c.Scripted && !c.Produce {
+		// a second broker instance on the same store and bucket: cold cache, partition logs
+		// restored from S3, so a Fetch really downloads
+		h = newHandler(mem, s3, bi, testLogger())
+	}
 	// the rating under test (default thresholds: 500ms / 3s, 0.2 / 0.6, one minute window)
-	h.s3Health = broker.NewS3HealthMonitor(broker.S3HealthConfig{})
+	hc := broker.S3HealthConfig{}
+	if c.Sensitive {
+		hc.ErrorWarn = 0.05
+	}
+	h.s3Health = broker.NewS3HealthMonitor(hc)
 	switch c.State {
 	case 1:
 		h.s3Health.RecordOperation("probe", time.Second, nil)
@@ -140,10 +250,14 @@ func c25gRun(t *testing.T, c c25gCase) ([]c25gPart, string, string) {
 		}
 	}
 	s3Before := listS3()
-	gate := c25gRank(h.s3Health.State())
-	if gate != c.State {
-		t.Fatalf("could not establish state %d (got %d)", c.State, gate)
+	s0 := c25gRank(h.s3Health.State())
+	if s0 != c.State {
+		t.Fatalf("could not establish state %d (got %d)", c.State, s0)
 	}
+	// arm the fake: from here on it samples the rating and follows the scripts
+	s3.mu.Lock()
+	s3.h, s3.up, s3.dl, s3.nUp, s3.nDl, s3.log = h, c.Up, c.Dl, 0, 0, nil
+	s3.mu.Unlock()
 	var parts []c25gPart
 	if c.Produce {
 		req := &kmsg.ProduceRequest{Acks: -1, TimeoutMillis: 1000}
@@ -202,12 +316,78 @@ func c25gRun(t *testing.T, c c25gCase) ([]c25gPart, string, string) {
 			}
 		}
 	}
-	codeSt := c25gRank(h.s3Health.State())
+	final := c25gRank(h.s3Health.State())
+	s3.mu.Lock()
+	calls := append([]c25gCall(nil), s3.log...)
+	s3.h = nil
+	s3.mu.Unlock()
 	s3After := listS3()
+	kind := map[bool]string{true: "produce", false: "fetch"}[c.Produce]
+
+	// ---- oracle 1: no S3 data operation starts while the rating is not healthy
+	dataOp := map[bool]string{true: "upload_segment", false: "download_segment"}[c.Produce]
+	for _, cl := range calls {
+		if cl.op == dataOp && cl.state > 0 {
+			setFail("gate-s3-op-while-unhealthy", fmt.Sprintf("%s: %s for partition %s started while S3 was rated %d (the rating changed during the request; this partition was not gated)", kind, cl.op, cl.part, cl.state))
+		}
+	}
+
+	// ---- per-partition gate-time rating, derived from the samples: the rating only changes
+	// through recorded S3 calls, and the calls of one request happen in partition order
+	distinct := true
+	seenPart := map[string]bool{}
+	for _, p := range parts {
+		k := fmt.Sprintf("%s/%d", p.topic, p.part)
+		if seenPart[k] {
+			distinct = false
+		}
+		seenPart[k] = true
+	}
+	derived := distinct
+	cur, lastIdx := s0, -1
+	for i := range parts {
+		p := &parts[i]
+		k := fmt.Sprintf("%s/%d", p.topic, p.part)
+		p.gateSt, p.codeSt, p.afterSt = cur, cur, cur
+		if !distinct {
+			p.gateSt, p.codeSt, p.afterSt = s0, final, final
+			continue
+		}
+		first, last := -1, -1
+		for j, cl := range calls {
+			if cl.part == k {
+				if first < 0 {
+					first = j
+				}
+				last = j
+				if cl.failed {
+					p.s3fail = true
+				}
+			}
+		}
+		if first >= 0 {
+			if first <= lastIdx {
+				derived = false // calls not in partition order: do not trust the derivation
+			}
+			lastIdx = last
+			if last+1 < len(calls) {
+				cur = calls[last+1].state
+			} else {
+				cur = final
+			}
+			p.afterSt = cur
+		}
+	}
+	if !distinct && s0 != final {
+		derived = false
+	}
+	if !derived {
+		notes = append(notes, "per-partition rating could not be derived for one case (repeated partitions while the rating changed, or S3 calls out of partition order); case not emitted for correspondence")
+	}
+
 	seen := map[string]int{}
 	for i := range parts {
 		p := &parts[i]
-		p.gateSt, p.codeSt = gate, codeSt
 		p.allowed = !c.ACL || strings.HasPrefix(p.topic, "t")
 		k := fmt.Sprintf("%s/%d", p.topic, p.part)
 		if c.Produce {
@@ -217,26 +397,29 @@ func c25gRun(t *testing.T, c c25gCase) ([]c25gPart, string, string) {
 			p.touched = int64(seen[k]) < grown
 			seen[k]++
 		}
-		if gate != 0 {
+		if derived && p.gateSt != 0 {
 			if p.code == 0 {
-				setFail("gate-acknowledged", fmt.Sprintf("S3 rated %d but %s partition %s answered with error code 0", gate, map[bool]string{true: "produce", false: "fetch"}[c.Produce], k))
+				setFail("gate-acknowledged", fmt.Sprintf("S3 rated %d when %s partition %s was handled, but it was answered with error code 0", p.gateSt, kind, k))
 			}
 			if p.touched {
-				setFail("gate-touched", fmt.Sprintf("S3 rated %d but partition %s was %s", gate, k, map[bool]string{true: "appended to", false: "read (record bytes returned)"}[c.Produce]))
+				setFail("gate-touched", fmt.Sprintf("S3 rated %d when partition %s was handled, but it was %s", p.gateSt, k, map[bool]string{true: "appended to", false: "read (record bytes returned)"}[c.Produce]))
 			}
 			want := int16(protocol.UNKNOWN_SERVER_ERROR)
-			if codeSt == 1 {
+			if p.codeSt == 1 {
 				want = protocol.REQUEST_TIMED_OUT
 			}
-			if p.allowed && (!c.Produce || !c.EtcdDown) && gate == codeSt && p.code != want {
-				setFail("gate-code", fmt.Sprintf("S3 rated %d: partition %s got code %d, backpressure code is %d", gate, k, p.code, want))
+			if p.allowed && (!c.Produce || !c.EtcdDown) && p.code != want {
+				setFail("gate-code", fmt.Sprintf("S3 rated %d: partition %s got code %d, backpressure code is %d", p.gateSt, k, p.code, want))
 			}
 		}
 	}
-	if gate != 0 && c.Produce && s3Before != s3After {
-		setFail("gate-touched", fmt.Sprintf("S3 rated %d but the bucket listing changed during a produce request", gate))
+	if s0 != 0 && c.Produce && s3Before != s3After {
+		setFail("gate-touched", fmt.Sprintf("S3 rated %d but the bucket listing changed during a produce request", s0))
 	}
-	return parts, fail, key
+	if !derived {
+		parts = nil
+	}
+	return parts, fail, key, notes
 }
 
 func c25gGen(r *vRand) c25gCase {
@@ -255,43 +438,106 @@ func c25gGen(r *vRand) c25gCase {
 	return c
 }
 
+// c25gGenScripted: a multi-partition request over DISTINCT partitions that (usually) starts
+// healthy, with scripted S3 failures so that the rating changes while the request is handled.
+func c25gGenScripted(r *vRand) c25gCase {
+	c := c25gCase{Kind: "gate", Scripted: true, Produce: r.Chance(60), ACL: r.Chance(25), Sensitive: r.Chance(50)}
+	if r.Chance(15) {
+		c.State = r.Range(1, 2)
+	}
+	perm := []int32{0, 1, 2, 3}
+	for i := 3; i > 0; i-- {
+		j := r.Intn(i + 1)
+		perm[i], perm[j] = perm[j], perm[i]
+	}
+	t0 := c25gTopic{Name: "t0", Parts: perm[:r.Range(2, 4)]}
+	switch r.Intn(4) {
+	case 0:
+		c.Topics = []c25gTopic{{Name: "t1", Parts: []int32{0}}, t0}
+	case 1:
+		c.Topics = []c25gTopic{t0, {Name: "t1", Parts: []int32{0}}}
+	case 2:
+		c.Topics = []c25gTopic{{Name: "secret", Parts: []int32{0}}, t0}
+	default:
+		c.Topics = []c25gTopic{t0}
+	}
+	script := make([]bool, r.Range(1, 6))
+	for i := range script {
+		script[i] = r.Chance(35)
+	}
+	if r.Chance(50) {
+		script[r.Intn(2)%len(script)] = true // an early failure
+	}
+	if c.Produce {
+		c.Up = script
+	} else {
+		c.Dl = script
+	}
+	return c
+}
+
 func c25gCoq(c c25gCase, p c25gPart) string {
 	st := []string{"Healthy", "Degraded", "Unavailable"}
-	return fmt.Sprintf("mkG %s (mkPenv %s %s LeaseOk %s %s) %s %s", cqBool(c.Produce), cqBool(p.allowed), cqBool(!c.EtcdDown), st[p.gateSt], st[p.codeSt], cqZ(int64(p.code)), cqBool(p.touched))
+	return fmt.Sprintf("mkG %s (mkPenv %s %s LeaseOk %s %s) %s %s %s %s", cqBool(c.Produce), cqBool(p.allowed), cqBool(!c.EtcdDown), st[p.gateSt], st[p.codeSt],
+		cqZ(int64(p.code)), cqBool(p.touched), cqBool(p.s3fail), st[p.afterSt])
 }
 
 func TestVerifC25Gate(t *testing.T) {
-	rep := vNewReport("C25", "gate: Produce (v3, acks=-1) and Fetch (v11) requests with 1-3 topics x 0-3 partitions (existing, populated partitions; repeated topics/partitions; an ACL-denied topic; etcd reported down) through the real handler.Handle while the real monitor (default thresholds) rates S3 healthy / degraded (1 s latency sample) / unavailable (3 failed operations); non-trivial = a non-healthy rating and at least one partition in the request; distinct = distinct canonical JSON")
+	rep := vNewReport("C25", "gate: Produce (v3, acks=-1) and Fetch (v11) requests through the real handler.Handle; (a) 1-3 topics x 0-3 partitions (populated; repeated topics/partitions; an ACL-denied topic; etcd reported down) while the real monitor rates S3 healthy / degraded / unavailable for the whole request; (b) scripted: 2-5 DISTINCT partitions, a fake S3 whose segment uploads / downloads fail per script (1-6 entries, 35% failures, often an early one) so that the rating changes DURING the request (fetch on a second handler with a cold cache), default or sensitive (0.05) error threshold; non-trivial = some partition handled while the rating was not healthy; distinct = distinct canonical JSON")
 	var coq, jsons []string
 	runOne := func(c c25gCase) {
 		c.Kind = "gate"
-		parts, fail, key := c25gRun(t, c)
+		parts, fail, key, notes := c25gRun(t, c)
 		canon, _ := json.Marshal(c)
-		rep.Count(string(canon), c.State != 0 && len(parts) > 0)
+		nt := false
+		changed := false
+		for _, p := range parts {
+			if p.gateSt != 0 {
+				nt = true
+			}
+			if p.gateSt != c.State {
+				changed = true
+			}
+		}
+		rep.Count(string(canon), nt)
 		rep.Hist(fmt.Sprintf("gate:state%d", c.State))
 		rep.Hist(map[bool]string{true: "gate:produce", false: "gate:fetch"}[c.Produce])
 		if c.EtcdDown {
 			rep.Hist("gate:etcd-down")
 		}
+		if c.Scripted {
+			rep.Hist("gate:scripted")
+		}
+		if changed {
+			rep.Hist("gate:rating-changed-during-request")
+		}
 		rep.Sample(c)
+		for _, nn := range notes {
+			dup := false
+			for _, have := range rep.Notes {
+				dup = dup || have == nn
+			}
+			if !dup {
+				rep.Notes = append(rep.Notes, nn)
+			}
+		}
 		if fail != "" {
 			shr := c
-			shr.Topics = vShrink(c.Topics, func(ts []c25gTopic) bool {
-				x := c
-				x.Topics = ts
-				_, f, k := c25gRun(t, x)
-				return f != "" && k == key
-			})
-			_, f2, _ := c25gRun(t, shr)
+			if !c.Scripted {
+				shr.Topics = vShrink(c.Topics, func(ts []c25gTopic) bool {
+					x := c
+					x.Topics = ts
+					_, f, k, _ := c25gRun(t, x)
+					return f != "" && k == key
+				})
+			}
+			_, f2, _, _ := c25gRun(t, shr)
 			if f2 == "" {
 				shr, f2 = c, fail
 			}
 			rep.Fail(key, key, f2, shr)
 		}
 		for _, p := range parts {
-			if p.gateSt != p.codeSt {
-				rep.Notes = append(rep.Notes, "rating changed between the gate and backpressureErrorCode in one case; emitted with both readings")
-			}
 			coq = append(coq, c25gCoq(c, p))
 			jsons = append(jsons, string(canon))
 		}
@@ -312,6 +558,12 @@ func TestVerifC25Gate(t *testing.T) {
 			{State: 1, Produce: true, EtcdDown: true, Topics: []c25gTopic{{Name: "t0", Parts: []int32{0}}}},
 			{State: 0, Produce: true, Topics: []c25gTopic{{Name: "t0", Parts: []int32{0, 0}}}},
 			{State: 0, Produce: false, ACL: true, Topics: []c25gTopic{{Name: "t0", Parts: []int32{1}}, {Name: "secret", Parts: []int32{0}}}},
+			// the rating changes during the request: the first partition's upload fails, the later
+			// partitions of the SAME request must be rejected, not flushed and acknowledged
+			{State: 0, Produce: true, Scripted: true, Up: []bool{true, false, false}, Topics: []c25gTopic{{Name: "t0", Parts: []int32{2, 0, 3}}}},
+			{State: 0, Produce: true, Scripted: true, Sensitive: true, Up: []bool{false, true, false, false}, Topics: []c25gTopic{{Name: "t1", Parts: []int32{0}}, {Name: "t0", Parts: []int32{1, 3, 0}}}},
+			{State: 0, Produce: false, Scripted: true, Dl: []bool{true, false, false}, Topics: []c25gTopic{{Name: "t0", Parts: []int32{0, 1, 2}}}},
+			{State: 0, Produce: false, Scripted: true, Sensitive: true, Dl: []bool{false, false, true, false, false}, Topics: []c25gTopic{{Name: "t0", Parts: []int32{3, 1}}, {Name: "t1", Parts: []int32{0}}}},
 		}
 		for _, c := range corpus {
 			runOne(c)
@@ -319,7 +571,11 @@ func TestVerifC25Gate(t *testing.T) {
 		r := vNewRand(vSeed() ^ 0x25a7e)
 		n := vN(120, 1200)
 		for i := 0; i < n; i++ {
-			runOne(c25gGen(r.Fork()))
+			if i%2 == 0 {
+				runOne(c25gGen(r.Fork()))
+			} else {
+				runOne(c25gGenScripted(r.Fork()))
+			}
 		}
 	}
 	rep.Notes = append(rep.Notes, "observation (not an oracle failure): for the unavailable rating the backpressure code is UNKNOWN_SERVER_ERROR (-1), which Kafka's error table does not mark retriable; cmd/broker's own tests (TestProduceBackpressureUnavailable, TestFetchBackpressureUnavailable) pin that code; the degraded rating answers REQUEST_TIMED_OUT (7), which is retriable")
